@@ -156,7 +156,36 @@ EXPECT = [
 ]
 
 
-def definition_oracle():
+# INCLUDEd declarations named by PUBLIC/PRIVATE statements of the including module; EXTENDS( parent ) with blanks
+FILES2 = {
+    "decl1.f90": "integer :: inc_pub\ninteger :: inc_hidden\n",
+    "decl2.f90": "integer :: inc_priv\ninteger :: inc_open\n",
+    "i1.f90": "module i1\n  implicit none\n  private\n  include 'decl1.f90'\n  public :: inc_pub\nend module i1\n",
+    "i2.f90": "module i2\n  implicit none\n  include 'decl2.f90'\n  PRIVATE :: Inc_Priv\nend module i2\n",
+    "h2.f90": "module host2\n  implicit none\n  integer :: inc_priv\n  integer :: inc_hidden\ncontains\n  subroutine s1()\n    use i1\n    inc_pub = 1\n"
+              "    inc_hidden = 2\n  end subroutine s1\n  subroutine s2()\n    use i2\n    inc_priv = 1\n    inc_open = 2\n  end subroutine s2\nend module host2\n",
+    "tb.f90": "module tb\n  implicit none\n  type :: base\n    integer :: bx\n  end type base\n  type, extends( base ) :: child\n    integer :: cx\n  end type child\n"
+              "  type , EXTENDS ( base ),public :: child2\n    integer :: cy\n  end type child2\ncontains\n  subroutine s3()\n    type(child) :: c\n"
+              "    type(child2) :: d\n    c%bx = 1\n    d%bx = 2\n  end subroutine s3\nend module tb\n",
+}
+EXPECT2 = [
+    ("h2.f90", 7, 4, ("decl1.f90", 0)),   # inc_pub: PUBLIC statement in a default-private module names an INCLUDEd entity
+    ("h2.f90", 8, 4, ("h2.f90", 3)),      # inc_hidden stays private in i1: the host's own variable
+    ("h2.f90", 12, 4, ("h2.f90", 2)),     # inc_priv: PRIVATE statement names an INCLUDEd entity -> the host's own variable
+    ("h2.f90", 13, 4, ("decl2.f90", 1)),  # inc_open
+    ("tb.f90", 15, 6, ("tb.f90", 3)),     # c%bx with `extends( base )`
+    ("tb.f90", 16, 6, ("tb.f90", 3)),     # d%bx with ` , EXTENDS ( base ),public`
+]
+# finding: PRIVATE statement on a USE-associated name in a default-PUBLIC module that re-exports the rest
+FILES3 = {
+    "a.f90": "module a\n  implicit none\n  integer :: x, y\nend module a\n",
+    "b.f90": "module b\n  use a\n  implicit none\n  private :: x\nend module b\n",
+    "p.f90": "module host\n  implicit none\n  integer :: x\ncontains\n  subroutine s()\n    use b\n    x = 1\n    y = 2\n  end subroutine s\nend module host\n",
+}
+EXPECT3 = [("p.f90", 6, 4, ("p.f90", 2)), ("p.f90", 7, 4, ("a.f90", 2))]
+
+
+def definition_oracle(FILES=FILES, EXPECT=EXPECT):
     from replay.harness import Workspace, session
     ws = Workspace(FILES)
     try:
@@ -176,6 +205,70 @@ def definition_oracle():
                 return {"use_site": {"file": f, "line": ln, "character": ch, "text": FILES[f].split("\n")[ln]},
                         "expected_declaration": want, "returned": got, "error": r.get("error", {}).get("message")}
         return None
+    finally:
+        ws.close()
+
+
+USE_SPELLINGS = [
+    # (USE statement, {name used in the procedure: file of the declaration it binds to or None})
+    ("use dep", {"aa": "dep", "bb": "dep", "cc": "dep"}),
+    ("USE DEP", {"aa": "dep", "bb": "dep", "cc": "dep"}),
+    ("use :: dep", {"aa": "dep", "bb": "dep", "cc": "dep"}),
+    ("use, non_intrinsic :: dep", {"aa": "dep", "bb": "dep", "cc": "dep"}),
+    ("use dep, only:", {"aa": "host", "bb": None, "cc": None}),
+    ("use dep, only: ", {"aa": "host", "bb": None, "cc": None}),
+    ("use dep , only :", {"aa": "host", "bb": None, "cc": None}),
+    ("USE DEP, ONLY:", {"aa": "host", "bb": None, "cc": None}),
+    ("use :: dep, only:", {"aa": "host", "bb": None, "cc": None}),
+    ("use, non_intrinsic :: dep, only:", {"aa": "host", "bb": None, "cc": None}),
+    ("use dep, only: ! nothing at all", {"aa": "host", "bb": None, "cc": None}),
+    ("use dep, only: bb", {"aa": "host", "bb": "dep", "cc": None}),
+    ("use dep,only:bb", {"aa": "host", "bb": "dep", "cc": None}),
+    ("use dep, only: BB ! cc", {"aa": "host", "bb": "dep", "cc": None}),
+    ("use dep, only: bb, cc", {"aa": "host", "bb": "dep", "cc": "dep"}),
+    ("use dep, only: cc,bb", {"aa": "host", "bb": "dep", "cc": "dep"}),
+    ("use dep, only: aa", {"aa": "dep", "bb": None, "cc": None}),
+    ("use dep, only: loc => bb", {"aa": "host", "bb": None, "cc": None, "loc": "dep"}),
+    ("use dep, only: loc=>bb, cc", {"aa": "host", "bb": None, "cc": "dep", "loc": "dep"}),
+    ("use dep, loc => bb", {"aa": "dep", "bb": None, "cc": "dep", "loc": "dep"}),
+    ("use dep, loc=>bb, loc2 => aa", {"aa": "host", "bb": None, "cc": "dep", "loc": "dep", "loc2": "dep"}),
+]
+
+
+def use_spelling_oracle():
+    """What a USE statement makes accessible, spelling by spelling (whole module, ONLY lists incl. the empty one, renames
+    with and without ONLY): each name used in the procedure binds to the used module's entity, to the host's own
+    declaration, or to nothing."""
+    from replay.harness import Workspace, session
+    dep = "module dep\n  implicit none\n  integer :: aa\n  integer :: bb\n  integer :: cc\nend module dep\n"
+    files, sites = {"dep.f90": dep}, []
+    for k, (stmt, want) in enumerate(USE_SPELLINGS):
+        names = sorted(want)
+        lines = [f"module host{k}", "  implicit none", "  integer :: aa", "contains", "  subroutine s()", "    " + stmt]
+        for n in names:
+            sites.append((f"host{k}.f90", len(lines), 4, stmt, n, want[n]))
+            lines.append(f"    {n} = 1")
+        lines += ["  end subroutine s", f"end module host{k}"]
+        files[f"host{k}.f90"] = "\n".join(lines) + "\n"
+    ws = Workspace(files)
+    try:
+        msgs = [{"jsonrpc": "2.0", "method": "textDocument/didOpen", "params": {"textDocument": {"uri": ws.uri(n)}}} for n in files]
+        for i, (f, ln, ch, _, _, _) in enumerate(sites):
+            msgs.append({"jsonrpc": "2.0", "id": 100 + i, "method": "textDocument/definition",
+                         "params": {"textDocument": {"uri": ws.uri(f)}, "position": {"line": ln, "character": ch}}})
+        srv, out = session(ws, msgs)
+        by_id = {m["id"]: m for m in out if "id" in m}
+        for i, (f, ln, ch, stmt, n, want) in enumerate(sites):
+            r = by_id.get(100 + i, {})
+            res = r.get("result")
+            got = None
+            if res:
+                base = res["uri"].rsplit("/", 1)[-1]
+                got = "dep" if base == "dep.f90" else ("host" if base == f else base)
+            if got != want or "error" in r:
+                return {"use_statement": stmt, "name": n, "expected_declaration_in": want, "resolved_in": got,
+                        "error": r.get("error", {}).get("message"), "files": {"dep.f90": dep, f: files[f]}}
+        return None, len(sites)
     finally:
         ws.close()
 
@@ -236,6 +329,31 @@ def extra(repo, reg, tier, seed):
                      "rename, re-export through a third module, PRIVATE entities incl. an unnamed interface in a default-private "
                      "module, inherited components through %): definition lands on the expected declaration or nowhere")
     it.count = len(EXPECT)
+    items.append(it)
+    w = definition_oracle(FILES2, EXPECT2)
+    it = Item("C05/session/native_included_and_extended_declarations", "refuted" if w else "bounded-ok", "native-run(bounded)", 0.0,
+              mode="bounded", witness=w, confirmed=True if w else None, func="fortls.parsers.internal.ast.FortranAST.resolve_includes",
+              detail=f"bounded: {len(EXPECT2)} use sites: PUBLIC/PRIVATE statements naming INCLUDEd entities (default-private and "
+                     "default-public includer, other spelling of the name), EXTENDS( parent ) written with blanks")
+    it.count = len(EXPECT2)
+    items.append(it)
+    w = definition_oracle(FILES3, EXPECT3)
+    it = Item("C05/session/native_private_statement_on_imported_name", "refuted" if w else "bounded-ok", "native-run(bounded)", 0.0,
+              mode="bounded", witness=w, confirmed=True if w else None, func=f"{UTIL}.get_use_tree",
+              detail="bounded: `private :: x` in a default-PUBLIC module that USEs the module declaring x: x is not re-exported, "
+                     "everything else is")
+    it.count = len(EXPECT3)
+    items.append(it)
+    w = use_spelling_oracle()
+    n_sp = 0
+    if isinstance(w, tuple):
+        w, n_sp = w
+    it = Item("C05/read_use_stmt/lemma.use_statement_grammar", "refuted" if w else "bounded-ok", "native-run(bounded)", 0.0,
+              mode="bounded", witness=w, confirmed=True if w else None, func="fortls.parsers.internal.parser.read_use_stmt",
+              detail=f"bounded: {len(USE_SPELLINGS)} spellings of the USE statement (whole module, ONLY lists including the empty "
+                     f"one, renames with and without ONLY, optional ::, nature, blanks, case, trailing comment), {n_sp} names: each "
+                     "binds to the used module's entity, to the host's declaration, or to nothing")
+    it.count = n_sp
     items.append(it)
     w = inherit.native_search()
     items.append(Item("C05/session/native_inheritance_orders", "refuted" if w else "bounded-ok", "native-run(bounded)", 0.0, mode="bounded",
